@@ -11,6 +11,18 @@ NOTE_COMMON = ("Theorems are about a hand-written Lean model; the model is tied 
                "float rounding measured not proved. Axioms: propext, Classical.choice, Quot.sound only.")
 
 CLAIMS = {
+ "C01": dict(
+   text="Proof (Lean 4): di_targets_exact — for every list of hot and cold streams (any number, any CP sign) and every grid that "
+        "is compatible with them (strictly descending, gaps wider than the code's 10*tol window, no stream bound inside a cell, "
+        "streams within range; extra utility rows allowed) the model of problem_table_algorithm + set_zonal_targets returns Qh = "
+        "max over ALL rational temperatures of the net heat deficit above that temperature (attained, >= 0), Qc = Qh - sum(cold) + "
+        "sum(hot), Qr = sum(hot) - Qc. Proved by induction over rows (cumsum = exact heat content) and an affine-interpolation "
+        "argument inside cells. The grid hypothesis is an executable predicate proved equivalent to the Prop (gridOKb_iff); the driver "
+        "evaluates it on every case and the evidence counts how many cases meet it. Correspondence: all 13 columns of 400+ random "
+        "tables per run; service-level oracle: every zone record of 250+ random multi-zone problems vs an exact Fraction cascade. "
+        "Excluded region (bounds < 2e-5 K apart) is run on the real code: known finding C01-sub-window.",
+   technique="Lean 4 proof by induction over table rows (closed form of the cascade) + correspondence testing + exact-cascade oracle",
+   design="§6 C01"),
  "C06": dict(
    text="Proof (Lean 4) about the model of pinch_idx/pinch_temperatures, for residual columns of any length: when the column has a "
         "zero and a non-zero row a pinch is reported, both rows are zero rows, hot row <= cold row (so T_hot >= T_cold on a descending "
